@@ -84,27 +84,11 @@ def gen(rng, prop, job):
 def layer_jobs(prop, tier, seed):
     """M2 treats then / go / remove_then as atomic; that is C01/C02's subject on the fine-grained model M1.  The same
     exploration is run here so that a change which breaks that atomicity is reported for this property too."""
-    from . import p_m1
-    jobs = []
-    for j in p_m1.make_jobs("C02", tier, seed)[: (8 if tier == "quick" else 40)]:
-        jobs.append({"kind": "layer", "prop": prop, "inner": dict(j, prop="C02")})
-    return jobs
+    return plug.m1_layer_jobs(prop, tier, seed)
 
 
 def run_layer(job):
-    from . import p_m1
-    res = p_m1.run_job(job["inner"])
-    if "infra_error" in res:
-        return res
-    prop = job["prop"]
-    for f in res.get("mon_fail", []):
-        f["msg"] = "%s: Signal.then/go/remove_then are not atomic with respect to each other, which the model of composites assumes (%s)" % (prop, f["msg"])
-        f["replay"] = {"model": "m1-layer", "inner": f.get("replay")}
-    for f in res.get("corr_fail", []):
-        f["msg"] = "layer M1 (atomicity of then/go/remove_then): " + f["msg"]
-        f["replay"] = {"model": "m1-layer", "inner": f.get("replay")}
-    res["known"] = []
-    return res
+    return plug.run_m1_layer(job, "the model of composites")
 
 
 def make_jobs(prop, tier, seed):
@@ -133,12 +117,9 @@ def run_job(job):
         return run_layer(job)
     if job["kind"] == "pbound":
         return plug.pbound_job(MODELS[job["prop"]], plug.smallest_of(gen), job)
-    rp0 = (job.get("replay") or {}).get("replay") or job.get("replay") or (job.get("failure") or {}).get("replay") or {}
-    if rp0.get("model") == "m1-layer":
-        from . import p_m1
-        if job["kind"] == "shrink":
-            return {"failure": job["failure"]}
-        return p_m1.run_job({"kind": "replay", "prop": "C02", "replay": rp0.get("inner") or {}})
+    r = plug.m1_layer_replay(job)
+    if r is not None:
+        return r
     if job.get("side") == "gc":
         return plug.std_job(MODELGC, gengc, job)
     if job.get("side") == "fine":
